@@ -13,9 +13,12 @@
                 insert_never_evicts_own_key, capacity_respected_sequentially,
                 segment_len_is_reachable, clear_resets, count_eq_entries_at_quiescence,
                 no_nested_locks, gen_grow_len_pow2_tie
-     partial  : occupancy_bound_partial (entries <= counter + calls in flight,
-                every schedule; the bound against the capacity is refuted)
-     refuted  : occupancy_bound_refuted (finding swc-sparse-scan-race)
+                occupancy_bound (every schedule: entries <= capacity + calls in
+                flight + fruitless full-ring scans), entries_le_counter_plus_inflight,
+                foreach_no_duplicates (ForEach concurrent with writers)
+     partial  : none
+     refuted  : occupancy_bound_refuted (the bound without the last term; finding
+                swc-sparse-scan-race)
      (count_eq_entries_at_quiescence now covers Clear: the defect clear-count-race
       was fixed in /repo by aae41ee and the model follows the repaired code) *)
 From Sdns Require Import Common.Base Gen.C16 C16.Model C16.Conc.
@@ -169,25 +172,57 @@ Theorem count_eq_entries_at_quiescence : forall (mix : N -> N) (sidx : nat -> N 
 Proof. exact Proofs_conc.count_eq_entries_at_quiescence. Qed.
 Print Assumptions count_eq_entries_at_quiescence.
 
-(* 12. Capacity.  Full statement: entries s <= cap + inside s in every reachable
-       state of writers that all insert with capacity cap >= 1.  Refuted: *)
+(* 12. Capacity under concurrency.  For every schedule of any number of threads
+       using the cache.Cache operations (SetWithCap with one capacity, Del, CAS,
+       CompareAndDelete, Clear, Get, ForEach) from a map within its capacity:
+         entries <= capacity + calls in flight + c_exh
+       where the ghost counter c_exh counts the SetWithCap calls that have returned
+       because their spill loop ran through the whole ring although they had evicted
+       nothing.  Where no such fruitless full-ring scan occurs the property's
+       statement holds as given (third conjunct). *)
+Theorem occupancy_bound : forall (mix : N -> N) (sidx : nat -> N -> nat) (eoff : N -> Z),
+  (forall n k, 0 < n -> sidx n k < n) ->
+  forall cap m0 progs sched,
+  SWF mix sidx m0 -> (sm_count m0 <= cap)%Z ->
+  (forall p, In p progs -> forall c, In c p -> capped cap c) ->
+  let s := run mix sidx eoff (init m0 progs) sched in
+  (entries s <= cap + inside s + c_exh s)%Z /\ (0 <= c_exh s)%Z /\
+  (c_exh s = 0%Z -> entries s <= cap + inside s)%Z.
+Proof. exact Proofs_conc.occupancy_bound. Qed.
+Print Assumptions occupancy_bound.
+
+(* The c_exh term is necessary: the statement without it (entries <= capacity +
+   writers in flight, in every reachable state) is refuted — three overlapping
+   inserts at capacity 1 end with two entries, nobody in flight, c_exh > 0
+   (finding swc-sparse-scan-race, replayed on the Go code by the seg driver). *)
 Theorem occupancy_bound_refuted :
   exists progs sched, only_swc_cap 1 progs /\
     let s := c_run (init (new_segmap 4 0) progs) sched in
-    quiescent s = true /\ (entries s > 1 + inside s)%Z.
+    quiescent s = true /\ (entries s > 1 + inside s)%Z /\ (0 < c_exh s)%Z.
 Proof. exact occupancy_bound_refuted_lemma. Qed.
 Print Assumptions occupancy_bound_refuted.
 
-(* What does hold in every reachable state: the entries exceed the counter by at
-   most the number of calls in flight. *)
-Theorem occupancy_bound_partial : forall (mix : N -> N) (sidx : nat -> N -> nat) (eoff : N -> Z),
+(* In every reachable state (any calls, Set and PutIfNotExists included) the entries
+   exceed the counter by at most the number of calls in flight. *)
+Theorem entries_le_counter_plus_inflight : forall (mix : N -> N) (sidx : nat -> N -> nat) (eoff : N -> Z),
   (forall n k, 0 < n -> sidx n k < n) ->
   forall m0 progs sched,
   SWF mix sidx m0 ->
   let s := run mix sidx eoff (init m0 progs) sched in
   (entries s <= sm_count (c_map s) + inside s)%Z.
 Proof. exact Proofs_conc.occupancy_bound_partial. Qed.
-Print Assumptions occupancy_bound_partial.
+Print Assumptions entries_le_counter_plus_inflight.
+
+(* 12b. ForEach concurrent with writers (one segment at a time, not a snapshot)
+        never yields a key twice. *)
+Theorem foreach_no_duplicates : forall (mix : N -> N) (sidx : nat -> N -> nat) (eoff : N -> Z),
+  (forall n k, 0 < n -> sidx n k < n) ->
+  forall m0 progs sched,
+  SWF mix sidx m0 ->
+  let s := run mix sidx eoff (init m0 progs) sched in
+  forall tid l, In (tid, ObAll l) (c_obs s) -> NoDup (map fst l).
+Proof. exact Proofs_conc.foreach_no_duplicates. Qed.
+Print Assumptions foreach_no_duplicates.
 
 (* 13. No writer waits on a lock while holding one; there are only per-segment locks. *)
 Theorem no_nested_locks : forall (mix : N -> N) (sidx : nat -> N -> nat) (eoff : N -> Z),
